@@ -130,4 +130,7 @@ class LocalNode(BaseNode):
                 # Subindex does not exist
                 raise SdoAbortedError(0x06090011)
             obj = obj[subindex]
+        elif subindex != 0:
+            # A variable has subindex 0 only
+            raise SdoAbortedError(0x06090011)
         return obj
